@@ -321,6 +321,16 @@ func (c *Ctx) modeConv(v *Val, t types.Type, fromI, fromF, toI, toF string) *Val
 		case v.T.Sort == SF && want == SReal:
 			c.assert("finite", "", App(SBool, "xf.isfin", v.T), "float argument passed to a real-mode function must be finite", nil)
 			return Scalar(App(SReal, "xval", v.T), t)
+		// bit-precise <-> idealised floats: an uninterpreted change of representation (assumption A-GEN);
+		// values keep their identity only through the bridging axioms of the prelude
+		case v.T.Sort == SFP && want == SReal:
+			return Scalar(App(SReal, "fp2real", v.T), t)
+		case v.T.Sort == SFP && want == SF:
+			return Scalar(App(SF, "fp2xf", v.T), t)
+		case v.T.Sort == SReal && want == SFP:
+			return Scalar(App(SFP, "real2fp", v.T), t)
+		case v.T.Sort == SF && want == SFP:
+			return Scalar(App(SFP, "xf2fp", v.T), t)
 		}
 		c.refuse("float mode conversion %s -> %s", fromF, toF)
 	case TInt:
@@ -328,20 +338,24 @@ func (c *Ctx) modeConv(v *Val, t types.Type, fromI, fromF, toI, toF string) *Val
 		if v.T.Sort == want {
 			return v
 		}
+		rg := intRangeOf(t)
 		if v.T.Sort.IsBV() && want == SInt {
 			if v.T.C != nil {
-				return Scalar(IntLitBig(v.T.C), t)
+				return Scalar(rg.Wrap(IntLitBig(v.T.C)), t)
 			}
-			if intRangeOf(t).Signed {
-				c.refuse("signed bit-vector to Int conversion")
-			}
-			return Scalar(App(SInt, "bv2nat", v.T), t)
+			fn := fmt.Sprintf("bv2i_%s%d", map[bool]string{true: "s", false: "u"}[rg.Signed], rg.Bits)
+			c.declareFun(fn, []Sort{v.T.Sort}, SInt)
+			r := App(SInt, fn, v.T)
+			c.assume(rg.InRange(r))
+			return Scalar(r, t)
 		}
 		if v.T.Sort == SInt && want.IsBV() {
 			if v.T.C != nil {
 				return Scalar(BVLit(v.T.C, want.BVWidth()), t)
 			}
-			return Scalar(Term{S: fmt.Sprintf("((_ int2bv %d) %s)", want.BVWidth(), v.T.S), Sort: want}, t)
+			fn := fmt.Sprintf("i2bv_%s%d", map[bool]string{true: "s", false: "u"}[rg.Signed], rg.Bits)
+			c.declareFun(fn, []Sort{SInt}, want)
+			return Scalar(App(want, fn, v.T), t)
 		}
 	}
 	return v
@@ -374,12 +388,24 @@ func (c *Ctx) ensureOrdinals(body ast.Node) {
 	}
 	c.loopOrd[body] = 0
 	n, fe := 0, 0
+	perCallee := map[string]int{}
+	if c.callSiteOrd == nil {
+		c.callSiteOrd = map[ast.Node]int{}
+	}
 	ast.Inspect(body, func(m ast.Node) bool {
 		switch y := m.(type) {
 		case *ast.ForStmt, *ast.RangeStmt:
 			n++
 			c.loopOrd[m] = n
 		case *ast.CallExpr:
+			// source-order ordinal among the calls of the same callee
+			if fo := calleeFunc(c.Fr.Pkg.P.TypesInfo, y); fo != nil {
+				if cpi := c.E.pkgOf(fo); cpi != nil {
+					k := cpi.Name + "." + funcKey(fo)
+					perCallee[k]++
+					c.callSiteOrd[m] = perCallee[k]
+				}
+			}
 			for _, a := range y.Args {
 				if _, ok := unparen(a).(*ast.FuncLit); ok {
 					fe++
